@@ -85,3 +85,78 @@ Theorem C10_example :
   end.
 Proof. exact c10_example. Qed.
 Print Assumptions C10_example.
+
+(* ---- source tie: every operation of the hand model EQUALS the Gallina function that tools/py2coq/gen_histogram.py
+   regenerates from the current src/sparkx/Histogram.py on every run (Gen/GenHistogram.v; numpy vocabulary
+   Lib/HistRt.v), hence so does every history; the theorems above are thereby about what the source says now. *)
+From Coq Require Import String List.
+From SX Require Import Lib.HistRt Gen.GenHistogram Proofs.C09_Source Proofs.C10_Source.
+Import ListNotations.
+
+Theorem C10_source_add_histogram : forall h, add_histogram h = gen_add_histogram h.
+Proof. exact source_add_histogram. Qed.
+Print Assumptions C10_source_add_histogram.
+
+Theorem C10_source_set_error : forall h l, set_error h l = gen_set_error h l.
+Proof. exact source_set_error. Qed.
+Print Assumptions C10_source_set_error.
+
+Theorem C10_source_set_systematic_error : forall h l, set_systematic_error h l = gen_set_systematic_error h l.
+Proof. exact source_set_systematic_error. Qed.
+Print Assumptions C10_source_set_systematic_error.
+
+Theorem C10_source_add_bin : forall h index e, add_bin h index e = gen_add_bin h index e.
+Proof. exact source_add_bin. Qed.
+Print Assumptions C10_source_add_bin.
+
+Theorem C10_source_remove_bin :
+  forall h index, length (edges h) = S (nbins h) -> remove_bin h index = gen_remove_bin h index.
+Proof. exact source_remove_bin. Qed.
+Print Assumptions C10_source_remove_bin.
+
+Theorem C10_source_average_weighted :
+  forall usqrt h ws, average_weighted usqrt h ws = gen_average_weighted usqrt h ws.
+Proof. exact source_average_weighted. Qed.
+Print Assumptions C10_source_average_weighted.
+
+Theorem C10_source_average : forall usqrt h, average usqrt h = gen_average usqrt h.
+Proof. exact source_average. Qed.
+Print Assumptions C10_source_average.
+
+Theorem C10_source_average_weighted_by_error :
+  forall usqrt h, average_weighted_by_error usqrt h = gen_average_weighted_by_error usqrt h.
+Proof. exact source_average_weighted_by_error. Qed.
+Print Assumptions C10_source_average_weighted_by_error.
+
+(* the literal list `default_columns` of write_to_file, and its abstraction to the numbers 0..7 *)
+Theorem C10_source_default_columns :
+  gen_column_names_1 = ["bin_center"; "bin_low"; "bin_high"; "distribution"; "stat_err+"; "stat_err-"; "sys_err+"; "sys_err-"]%string
+  /\ colkeys gen_column_names_1 = default_columns.
+Proof. exact source_default_columns. Qed.
+Print Assumptions C10_source_default_columns.
+
+(* write_to_file (checks, label handling, the eight values per row and their selection by column);
+   an explicitly EMPTY column list is excluded: there the code never indexes hist_labels, the model does *)
+Theorem C10_source_write_to_file :
+  forall h labels columns, (forall cs, columns = Some cs -> cs <> []) ->
+  write_to_file h labels columns = gen_write_to_file h labels columns.
+Proof. exact source_write_to_file. Qed.
+Print Assumptions C10_source_write_to_file.
+
+(* every operation and every history from a well-shaped state *)
+Theorem C10_source_step : forall usqrt h o, Shape h -> step usqrt h o = gen_step usqrt h o.
+Proof. exact source_step. Qed.
+Print Assumptions C10_source_step.
+
+Theorem C10_source_run : forall usqrt ops h, Shape h -> run usqrt h ops = gen_run usqrt h ops.
+Proof. exact source_run. Qed.
+Print Assumptions C10_source_run.
+
+(* non-vacuity: the regenerated functions compute, and give the model's results on the history of C10_example *)
+Theorem C10_source_example :
+  gen_run qsqrt (fresh 2 [z2 0 1; z2 1 1; z2 2 1]) ex_ops = run qsqrt (fresh 2 [z2 0 1; z2 1 1; z2 2 1]) ex_ops
+  /\ (exists h, gen_run qsqrt (fresh 2 [z2 0 1; z2 1 1; z2 2 1]) ex_ops = Ok h /\ shapeb h = true
+       /\ exists t, gen_write_to_file h [[(1, 11); (3, 13); (4, 14)]] (Some [3; 1; 4]) = Ok t
+                    /\ write_to_file h [[(1, 11); (3, 13); (4, 14)]] (Some [3; 1; 4]) = Ok t).
+Proof. exact source_example. Qed.
+Print Assumptions C10_source_example.
